@@ -21,10 +21,11 @@ func init() {
 		Cases: func(tier string) int { return tierN(tier, 100, 3000) },
 		Run:   runC15,
 		Rule: "seeded write sequences (30 requests) where most puts declare 0..3 entries in 4 index names chosen to be adjacent in key order (ia, ia0, iab, ib), several records sharing a secondary key, overwrites that change/drop indexes, deletes, delete ranges, closing sessions that own indexed records; " +
+			"in every third case the secondary keys and probes contain '/' (k/a, k/a/b, m/x/y ...), where the store's hierarchical key order and the byte order differ, and the reference is sorted by an independent implementation of the hierarchical order; " +
 			"after every request the raw index entries are compared with the model and a battery of queries (list, range-scan, get with EQUAL/FLOOR/CEILING/LOWER/HIGHER and an index name) for probes at, between, below the first and above the last entry of every index (and of an index that does not exist) is compared with a sorted reference of that index only; " +
 			"non-trivial = >= 2 indexes non-empty at some point and a query probed past the end of an index; distinct = request trace",
 		MinNontrivial:    func(tier string) int { return tierN(tier, 50, 1500) },
-		RequiredCounters: []string{"index_queries", "index_gets_past_end", "index_entries_compared", "index_list_results"},
+		RequiredCounters: []string{"index_queries", "index_gets_past_end", "index_entries_compared", "index_list_results", "index_gets_with_slash"},
 		CaseTimeoutS:     120,
 	})
 }
@@ -39,11 +40,18 @@ func indexRef(m *refmodel.Model, name string) []idxRef {
 	for _, e := range m.IndexEntries(name) {
 		res = append(res, idxRef{e.Secondary, e.Primary, e.Secondary + "\x01" + url.PathEscape(e.Primary)})
 	}
-	sort.Slice(res, func(i, j int) bool { return res[i].composed < res[j].composed })
+	// the engine's (hierarchical) key order; for secondary keys without '/' it is the byte order
+	sort.Slice(res, func(i, j int) bool { return refmodel.SlashCmp(res[i].composed, res[j].composed) < 0 })
 	return res
 }
 
 var idxProbes = []string{"", "a", "j", "k", "k0", "k1", "ka", "kz", "l", "m", "m.", "m/", "n", "y", "z", "zz", "~"}
+
+// secondary keys and probes with '/': inside one index the entries are ordered by the store's hierarchical key order
+// of the secondary key (fewer segments first), which differs from the byte order exactly here
+var idxKeysSlash = []string{"k", "k/a", "k/b", "k0", "k/a/b", "m", "m/x/y", "z", "k!"}
+var idxProbesSlash = []string{"", "k", "k/", "k/a", "k/a0", "k/b", "k/c", "k0", "k/a/b", "k/a/", "k!", "l", "l/a", "m", "m/x", "m/x/y", "m/x/z", "z", "z/a", "~", "~/~/~"}
+
 var idxQueryNames = []string{"ia", "ia0", "iab", "ib", "i", "ic", "ia1"}
 
 func (h *seqHarness) indexBattery() bool {
@@ -52,15 +60,20 @@ func (h *seqHarness) indexBattery() bool {
 		nm := name
 		// list + range-scan on a few ranges
 		ranges := [][2]string{{"", "~~"}, {"k", "m"}, {"k0", "kz"}, {"m", "k"}, {"l", "zz"}}
-		a, b := idxProbes[h.rng.IntN(len(idxProbes))], idxProbes[h.rng.IntN(len(idxProbes))]
+		probes := idxProbes
+		if h.idxSlash {
+			probes = idxProbesSlash
+			ranges = append(ranges, [2]string{"k/", "k/~"}, [2]string{"k", "k/a/b"}, [2]string{"", "~/~/~/~"}, [2]string{"k/a", "m/x"})
+		}
+		a, b := probes[h.rng.IntN(len(probes))], probes[h.rng.IntN(len(probes))]
 		ranges = append(ranges, [2]string{a, b})
 		for _, rg := range ranges {
-			if strings.Contains(rg[0], "/") || strings.Contains(rg[1], "/") {
+			if !h.idxSlash && (strings.Contains(rg[0], "/") || strings.Contains(rg[1], "/")) {
 				continue
 			}
 			var want []string
 			for _, e := range ref {
-				if e.composed >= rg[0] && e.composed < rg[1] {
+				if refmodel.SlashCmp(e.composed, rg[0]) >= 0 && refmodel.SlashCmp(e.composed, rg[1]) < 0 {
 					want = append(want, e.primary)
 				}
 			}
@@ -104,7 +117,9 @@ func (h *seqHarness) indexBattery() bool {
 			}
 			bySec[e.sec] = append(bySec[e.sec], e.primary)
 		}
-		sort.Strings(secKeys)
+		sort.Slice(secKeys, func(i, j int) bool { return refmodel.SlashCmp(secKeys[i], secKeys[j]) < 0 })
+		le := func(a, b string) bool { return refmodel.SlashCmp(a, b) <= 0 }
+		lt := func(a, b string) bool { return refmodel.SlashCmp(a, b) < 0 }
 		var gets []*proto.GetRequest
 		type expGet struct {
 			probe string
@@ -113,9 +128,12 @@ func (h *seqHarness) indexBattery() bool {
 			found bool
 		}
 		var exps []expGet
-		for _, probe := range idxProbes {
-			if strings.Contains(probe, "/") {
+		for _, probe := range probes {
+			if !h.idxSlash && strings.Contains(probe, "/") {
 				continue
+			}
+			if strings.Contains(probe, "/") {
+				h.r.Count("index_gets_with_slash", 1)
 			}
 			for _, ct := range []proto.KeyComparisonType{proto.KeyComparisonType_EQUAL, proto.KeyComparisonType_FLOOR, proto.KeyComparisonType_CEILING,
 				proto.KeyComparisonType_LOWER, proto.KeyComparisonType_HIGHER} {
@@ -126,30 +144,30 @@ func (h *seqHarness) indexBattery() bool {
 					e.sec = probe
 				case proto.KeyComparisonType_FLOOR:
 					for _, s := range secKeys {
-						if s <= probe {
+						if le(s, probe) {
 							e.sec, e.found = s, true
 						}
 					}
 				case proto.KeyComparisonType_LOWER:
 					for _, s := range secKeys {
-						if s < probe {
+						if lt(s, probe) {
 							e.sec, e.found = s, true
 						}
 					}
 				case proto.KeyComparisonType_CEILING:
 					for i := len(secKeys) - 1; i >= 0; i-- {
-						if secKeys[i] >= probe {
+						if le(probe, secKeys[i]) {
 							e.sec, e.found = secKeys[i], true
 						}
 					}
 				case proto.KeyComparisonType_HIGHER:
 					for i := len(secKeys) - 1; i >= 0; i-- {
-						if secKeys[i] > probe {
+						if lt(probe, secKeys[i]) {
 							e.sec, e.found = secKeys[i], true
 						}
 					}
 				}
-				if len(secKeys) > 0 && (probe > secKeys[len(secKeys)-1] || probe < secKeys[0]) || len(secKeys) == 0 {
+				if len(secKeys) > 0 && (lt(secKeys[len(secKeys)-1], probe) || lt(probe, secKeys[0])) || len(secKeys) == 0 {
 					h.r.Count("index_gets_past_end", 1)
 				}
 				exps = append(exps, e)
@@ -167,12 +185,15 @@ func (h *seqHarness) indexBattery() bool {
 			where := "inside"
 			if len(secKeys) == 0 {
 				where = "empty-index"
-			} else if e.probe > secKeys[len(secKeys)-1] {
+			} else if lt(secKeys[len(secKeys)-1], e.probe) {
 				where = "above-last"
-			} else if e.probe < secKeys[0] {
+			} else if lt(e.probe, secKeys[0]) {
 				where = "below-first"
 			}
 			ctx := fmt.Sprintf("%v:%s", e.ct, where)
+			if h.idxSlash {
+				ctx += ":secondary-keys-with-slash"
+			}
 			if !e.found {
 				if got.Status != proto.Status_KEY_NOT_FOUND {
 					gk, gs := "<nil>", "<nil>"
@@ -228,6 +249,12 @@ func runC15(tier string, seed uint64, idx int) core.Result {
 	defer h.Close()
 	u := genUniverse(rng, 6+rng.IntN(10))
 	maxIdx := 0
+	keys := idxKeys
+	if idx%3 == 2 {
+		h.idxSlash = true
+		keys = idxKeysSlash
+		r.Count("cases_with_slash_in_secondary_keys", 1)
+	}
 	bulkPrefix, bulkAt := "", -1
 	if rng.IntN(3) == 0 {
 		// a block of indexed records that one delete range removes: both sides of the engine's 100-key switch
@@ -272,7 +299,7 @@ func runC15(tier string, seed uint64, idx int) core.Result {
 			p := &proto.PutRequest{Key: u.pick(rng), Value: h.nextValue()}
 			for k := rng.IntN(4); k > 0; k-- {
 				p.SecondaryIndexes = append(p.SecondaryIndexes, &proto.SecondaryIndex{
-					IndexName: idxNames[rng.IntN(len(idxNames))], SecondaryKey: idxKeys[rng.IntN(len(idxKeys))]})
+					IndexName: idxNames[rng.IntN(len(idxNames))], SecondaryKey: keys[rng.IntN(len(keys))]})
 			}
 			if len(h.liveSessions) > 0 && rng.IntN(4) == 0 {
 				p.SessionId = pb.Int64(h.liveSessions[rng.IntN(len(h.liveSessions))])
